@@ -7,7 +7,7 @@ From Rocfl Require Import Base.Bytes Model.VersionNum Model.VCode.
 Open Scope N_scope.
 
 (** empty-manifest-entry: a manifest entry ["digest": []] is remembered as a known
-    digest (serde.rs:917 [digests.insert]) but never enters the PathBiMap
+    digest (serde.rs:922 [digests.insert]) but never enters the PathBiMap
     (bimap.rs:88-91), so E050 does not fire for a state that uses the digest and
     [content_paths(..).unwrap()] (validate/mod.rs:1656-1657) panics. *)
 Definition c17_empty_manifest_entry (inv : ainv) : bool :=
@@ -26,7 +26,7 @@ Definition c17_future_content (inv : ainv) : bool :=
         end) (snd vs)) (i_versions inv).
 Definition c17_empty_pps (dbg : bool) (inv : ainv) : bool := dbg && c17_future_content inv.
 
-(** quadratic-path: validate_non_conflicting (serde.rs:1464-1478) hashes every
+(** quadratic-path: validate_non_conflicting (serde.rs:1473-1487) hashes every
     '/'-prefix of every path: slashes * length operations for one path. *)
 Definition PATH_COST_BOUND : N := 100000000.
 Definition c17_quadratic_path (slashes len : N) : bool := PATH_COST_BOUND <? slashes * len.
